@@ -14,6 +14,9 @@ type Service struct {
 	Hidden          bool
 	Primary         bool
 	Linked          []*Service
+
+	// characteristicAdded is called when a characteristic is added
+	characteristicAdded func()
 }
 
 // New returns a new service.
@@ -59,6 +62,16 @@ func (s *Service) Equal(other interface{}) bool {
 
 func (s *Service) AddCharacteristic(c *characteristic.Characteristic) {
 	s.Characteristics = append(s.Characteristics, c)
+
+	if s.characteristicAdded != nil {
+		s.characteristicAdded()
+	}
+}
+
+// OnCharacteristicAdded sets the function which is called when a characteristic is added to the service.
+// An accessory uses it to give the characteristics of its services their ids.
+func (s *Service) OnCharacteristicAdded(fn func()) {
+	s.characteristicAdded = fn
 }
 
 func (s *Service) AddLinkedService(other *Service) {
